@@ -273,6 +273,24 @@ class Driver:
         self.stopped = False
         self.run_md = run_md
         self.results_consumed = 0
+        self.late_handover = False
+        self.pending = []
+
+    def hand_over(self):
+        """Serialise the jobs that were submitted by reference (late hand-over) now."""
+        for fut, ref, at_submit in self.pending:
+            fut.unit = pickle.loads(pickle.dumps(ref))
+            was = pickle.loads(at_submit)
+            if self.obs and self.obs.flags.get("C07"):
+                def ident(u):
+                    pk = u.get("picked", {})
+                    sid = lambda g: (int(g.bit_generator.state["state"]["state"]), int(g.bit_generator.state["state"]["inc"]))  # noqa: E731
+                    return (u.get("_vjob"), sorted(pk), [(sid(v["ens"]["rgen"]), sid(v["rgen-eng"])) for _, v in sorted(pk.items())])
+
+                a, b = ident(was), ident(fut.unit)
+                if a != b:
+                    self.obs.bad("C07:job-changed-between-submission-and-hand-over-to-the-worker", f"submitted job {a[0]} ensembles {a[1]}; the worker receives job {b[0]} ensembles {b[1]}" + ("" if a[2] == b[2] else " with other streams"))
+        self.pending = []
 
 
 class FakeRunner:
@@ -280,14 +298,22 @@ class FakeRunner:
         self.drv = drv
 
     def submit_work(self, md_items):
-        unit = pickle.loads(pickle.dumps(md_items))  # process boundary
-        fut = FakeFuture(unit, md_items.get("_vjob"))
+        self.drv.hand_over()
+        fut = FakeFuture(None, md_items.get("_vjob"))
+        if self.drv.late_handover:
+            # the real runner takes the job by reference and serialises it for the worker process off the main thread
+            # (its queue poll + the process pool's feeder thread), i.e. possibly only after the scheduler has gone on:
+            # here at the latest point the program allows - the next time the scheduler talks to the runner
+            self.drv.pending.append((fut, md_items, pickle.dumps(md_items)))
+        else:
+            fut.unit = pickle.loads(pickle.dumps(md_items))  # process boundary
         self.drv.submitted += 1
         if self.drv.obs:
             self.drv.obs.on_submit(md_items)
         return fut
 
     def stop(self):
+        self.drv.hand_over()
         self.drv.stopped = True
 
 
@@ -300,6 +326,7 @@ class FakeFutures:
 
     def as_completed(self):
         drv = self.drv
+        drv.hand_over()
         if not drv.inflight:
             return None
         if drv.kill_after is not None and drv.completed >= drv.kill_after:
@@ -540,6 +567,10 @@ class Observer:
             locked = set(state.locked_paths())
             for pn, d in state.traj_data.items():
                 before = self._frac_before.get(pn)
+                if pn in live and pn not in self._live_before:
+                    # a path created in this step starts from nothing (the table is process-wide: an entry with the same
+                    # number may be left over from another simulation that ran earlier in the interpreter)
+                    before = None
                 dl = d["frac"] - before if before is not None else d["frac"].copy()
                 if np.any(dl != 0):
                     if pn not in live:
@@ -767,6 +798,24 @@ def _segment_child(seg, flags, carry):
                 tomli_w.dump(cfg, fh)
         except (tomli.TOMLDecodeError, FileNotFoundError, KeyError):
             pass  # an unreadable restart file is for setup_config to report
+    if seg.get("_prelude_dir"):
+        # another, unrelated simulation ran to its end earlier in this interpreter (a script or notebook that calls the
+        # scheduler several times, like the repository's own end-to-end tests): nothing of it may reach this one
+        here = os.getcwd()
+        os.chdir(seg["_prelude_dir"])
+        try:
+            drv0 = Driver(Policy("oldest", 0, None), None, None, tis.run_md)
+            o_runner = sched.setup_runner
+            sched.setup_runner = lambda state: (FakeRunner(drv0), FakeFutures(drv0))
+            try:
+                sched.scheduler(setup_config("infretis.toml"))
+            finally:
+                sched.setup_runner = o_runner
+        except Exception as exc:  # noqa: BLE001
+            out["exc"] = ("prelude", type(exc).__name__, str(exc)[:500])
+            return out
+        finally:
+            os.chdir(here)
     fault = seg.get("fault")
     ctl = None
     if fault:
@@ -793,6 +842,7 @@ def _segment_child(seg, flags, carry):
     obs = Observer(flags, carry)
     policy = Policy(seg.get("policy", "random"), seg.get("policy_seed", 0), seg.get("schedule"))
     drv = Driver(policy, seg.get("kill_after"), obs, tis.run_md)
+    drv.late_handover = seg.get("handover") == "late"
     out["cstep_start"] = config["current"]["cstep"]
     out["locked_at_start"] = carry["locked_at_start"]
 
@@ -908,6 +958,9 @@ def run_history(spec, segments, flags, keep=False, timeout=300.0, rundir=None):
         for k, seg in enumerate(segments):
             seg = dict(seg)
             seg["restart"] = k > 0
+            pre = None
+            if seg.get("prelude") and spec.get("engine") != "turtlemd":
+                pre = seg["_prelude_dir"] = make_rundir(dict(spec, steps=seg["prelude"]["steps"], seed=seg["prelude"]["seed"]))
             try:
                 res = run_segment(d, seg, flags, carry, timeout)
             except isolate.ChildTimeout:
@@ -915,6 +968,9 @@ def run_history(spec, segments, flags, keep=False, timeout=300.0, rundir=None):
                 results.append(res)
                 viol.append(("C05:process-did-not-terminate", f"segment {k} exceeded {timeout}s", k))
                 break
+            finally:
+                if pre:
+                    isolate.rmscratch(pre)
             results.append(res)
             carry = res.get("carry", carry)
             for s, m in res["viol"]:
